@@ -326,6 +326,49 @@ def clause_e(rep, F):
     rep.floor("functions that consume a line break", n, 1)
 
 
+def clause_e2(rep, F, rule="indentation-blanks-pass-the-tab-test"):
+    """'a tab used as block indentation is an error': the two loops that walk over the blanks at the start of a line (skip_to_next_token,
+    and the blank/break loop of scan_plain_scalar for continuation lines) test `column < indent && character is a tab` once per
+    character.  That only covers every indentation column if the blanks are consumed one at a time: a call that consumes a whole run
+    of blanks (skip_while_blank, skip_ws_to_eol - they take tabs without looking) must sit behind the tab test's true edge (the line is
+    then required to be empty) or on the `leading_whitespace == false` side (blanks after content are not indentation)."""
+    S_ = SCANNER + "::"
+    BULK = ("::skip_while_blank", "::skip_ws_to_eol")
+
+    def is_bulk(ck, depth=0):
+        if not ck:
+            return False
+        if ck.endswith(BULK):
+            return True
+        g = F.fns.get(ck)
+        if g is not None and depth < 2 and g.d.get("impl_adt") == SCANNER and not ck.endswith(("::skip_blank", "::skip_non_blank", "::skip_nl")):
+            return any(is_bulk(c2, depth + 1) for _, _, c2, _ in g.calls() if c2 and (c2.endswith(BULK)))
+        return False
+    n = 0
+    for nm in ("skip_to_next_token", "scan_plain_scalar"):
+        f = F.fn(S_ + nm)
+        bulk = [(bb, t, ck) for bb, t, ck, fr in f.calls() if is_bulk(ck)]
+        tabg, lwf = [], []
+        for bi, b in enumerate(f.blocks):
+            t = b["term"]
+            if b["cleanup"] or t["k"] != "switch":
+                continue
+            es = cfg.expr_str(cfg.expr_operand(f, t["discr"], 8))
+            m, other = cfg.switch_edge_blocks(f, bi)
+            if es.startswith("Lt((*arg1.mark.col") and "indent" in es and any(cfg.dominated_by_edge(f, bb, bi, other) for bb, _, ck in bulk if ck.endswith("::skip_ws_to_eol")):
+                tabg.append((bi, other))
+            if es == "*arg1.leading_whitespace" and 0 in m:
+                lwf.append((bi, m[0]))
+        rep.check(bool(tabg), "guard-implies-err", "%s:tab test on the indentation columns" % short(f.key), "the test `column < indent` that sends a tab in the indentation to "
+                  "skip_ws_to_eol (and then to an error unless the line is empty) is gone", site=f.span)
+        for bb, t, ck in bulk:
+            n += 1
+            ok = any(bb == tg or cfg.dominated_by_edge(f, bb, bi, tg) for bi, tg in tabg + lwf)
+            rep.check(ok, rule, "%s->%s" % (short(f.key), short(ck)), "a whole run of blanks is consumed at a place that is neither behind the tab test nor after content on "
+                      "the line: only the first blank of the run is tested, a tab further into the indentation is accepted as one column", site=site(f, t["sp"]))
+    rep.floor("blank-run consumers in the two indentation loops", n, 2)
+
+
 def _flow_guard(f, bi):
     t = f.blocks[bi]["term"]
     if t["k"] != "switch" or t["dty"] != "bool" or t["vals"] != [0]:
@@ -429,6 +472,7 @@ def run(tier):
     F = facts.load()
     clause_a(rep, F)
     clause_e(rep, F)
+    clause_e2(rep, F)
     clause_f(rep, F)
     clause_b(rep, F)
     clause_c(rep, F)
